@@ -218,8 +218,19 @@ func (r *relation) checkedAdd(s *subject, p objecttree.RawChangesPayload, prev *
 	if err != nil {
 		return res, nil, err
 	}
-	if trim {
+	if trim && res.Mode == objecttree.Append {
 		classes["append-after-reduce-dropped-front"] = true
+	}
+	if res.Mode == objecttree.Nothing {
+		if trim {
+			classes["nothing-with-reduce"] = true
+		}
+		if len(now.held) != len(prev.held) {
+			return res, nil, fmt.Errorf("(d) %s: the add reported Nothing but the stored set changed: %d -> %d changes", what, len(prev.held), len(now.held))
+		}
+		if !sameSet(now.heads, prev.heads) {
+			return res, nil, fmt.Errorf("(d) %s: the add reported Nothing but the heads changed %s -> %s", what, r.show(prev.heads), r.show(now.heads))
+		}
 	}
 	if allHeld {
 		classes["duplicate-batch"] = true
@@ -458,14 +469,12 @@ func orderMap(sc []storedChange) map[string]string {
 func (r *relation) verdict(view string, mode objecttree.Mode, before, after []string) (frontTrim bool, err error) {
 	switch mode {
 	case objecttree.Nothing:
-		if len(before) != len(after) {
-			return false, fmt.Errorf("(d) %s: the add reported Nothing but the presented sequence changed\n  before: %s\n  after:  %s", view, r.show(before), r.show(after))
+		// nothing new, no reordering; the call may have reduced the tree (a reduce runs in every
+		// AddRawChanges call), so the view may have lost a front part - and only a front part
+		if !frontTrimOnly(before, after) {
+			return false, fmt.Errorf("(d) %s: the add reported Nothing but the presented sequence is not the previous one (restricted to what the view still contains)\n  before: %s\n  after:  %s", view, r.show(before), r.show(after))
 		}
-		for i := range before {
-			if before[i] != after[i] {
-				return false, fmt.Errorf("(d) %s: the add reported Nothing but the presented sequence changed\n  before: %s\n  after:  %s", view, r.show(before), r.show(after))
-			}
-		}
+		frontTrim = len(after) != len(before)
 	case objecttree.Append:
 		kept := restrict(before, after)
 		if len(kept) == 0 || kept[len(kept)-1] != before[len(before)-1] {
@@ -482,6 +491,26 @@ func (r *relation) verdict(view string, mode objecttree.Mode, before, after []st
 		frontTrim = len(kept) != len(before)
 	}
 	return frontTrim, nil
+}
+
+// frontTrimOnly: after is before without a (possibly empty) front part.
+func frontTrimOnly(before, after []string) bool {
+	if len(after) == 0 || len(after) > len(before) {
+		return false
+	}
+	return sameSeq(before[len(before)-len(after):], after)
+}
+
+func sameSeq(a, b []string) bool {
+	if len(a) != len(b) {
+		return false
+	}
+	for i := range a {
+		if a[i] != b[i] {
+			return false
+		}
+	}
+	return true
 }
 
 func modeName(m objecttree.Mode) string {
